@@ -757,16 +757,17 @@ package adaptation
 //@   props C07 C11 C16
 //@   requires p != nil && p.impl != nil && !held(p.Mutex)
 //@   requires p.impl.wasmImpl == nil ==> p.mux != nil && p.rpcc != nil && p.rpcs != nil && p.rpcl != nil
-//@   modifies @writes
+//@   modifies p.closed, lock(p.Mutex), calls("multiplex.Mux.Close"), calls("(*github.com/containerd/ttrpc.Client).Close"), calls("(*github.com/containerd/ttrpc.Server).Close"), calls("net.Listener.Close")
 //@   ensures [closed] p.closed
 //@   ensures [lock]   !held(p.Mutex)
 //@   ensures [same]   p.events == old(p.events) && p.impl == old(p.impl) && p.idx == old(p.idx) && p.base == old(p.base) && p.r == old(p.r)
 
 //@ func plugin.createContainer
 //@   props C06 C07
+//@   logs relay.CreateContainer
 //@   requires p != nil && p.impl != nil && !held(p.Mutex) && cfgLockFree()
 //@   requires p.impl.wasmImpl == nil ==> p.impl.ttrpcImpl != nil && p.mux != nil && p.rpcc != nil && p.rpcs != nil && p.rpcl != nil
-//@   modifies @writes
+//@   modifies p.closed, lock(p.Mutex), calls("multiplex.Mux.Close"), calls("(*github.com/containerd/ttrpc.Client).Close"), calls("(*github.com/containerd/ttrpc.Server).Close"), calls("net.Listener.Close"), lock(global("adaptation.timeoutCfgLock")), calls("api.Plugin.CreateContainer"), calls("api.PluginService.CreateContainer")
 //@   ensures [unsub]   !old(subscribed(p, Event_CREATE_CONTAINER)) ==> result.0 == nil && result.1 == nil && ncalls("api.Plugin.CreateContainer") == old(ncalls("api.Plugin.CreateContainer")) && ncalls("api.PluginService.CreateContainer") == old(ncalls("api.PluginService.CreateContainer")) && p.closed == old(p.closed)
 //@   ensures [once]    old(subscribed(p, Event_CREATE_CONTAINER)) ==> ncalls("api.Plugin.CreateContainer") + ncalls("api.PluginService.CreateContainer") == old(ncalls("api.Plugin.CreateContainer") + ncalls("api.PluginService.CreateContainer")) + 1
 //@   ensures [wasm]    old(subscribed(p, Event_CREATE_CONTAINER)) && p.impl.wasmImpl != nil ==> ncalls("api.Plugin.CreateContainer") == old(ncalls("api.Plugin.CreateContainer")) + 1
@@ -785,9 +786,10 @@ package adaptation
 
 //@ func plugin.updateContainer
 //@   props C06 C07
+//@   logs relay.UpdateContainer
 //@   requires p != nil && p.impl != nil && !held(p.Mutex) && cfgLockFree()
 //@   requires p.impl.wasmImpl == nil ==> p.impl.ttrpcImpl != nil && p.mux != nil && p.rpcc != nil && p.rpcs != nil && p.rpcl != nil
-//@   modifies @writes
+//@   modifies p.closed, lock(p.Mutex), calls("multiplex.Mux.Close"), calls("(*github.com/containerd/ttrpc.Client).Close"), calls("(*github.com/containerd/ttrpc.Server).Close"), calls("net.Listener.Close"), lock(global("adaptation.timeoutCfgLock")), calls("api.Plugin.UpdateContainer"), calls("api.PluginService.UpdateContainer")
 //@   ensures [unsub]   !old(subscribed(p, Event_UPDATE_CONTAINER)) ==> result.0 == nil && result.1 == nil && ncalls("api.Plugin.UpdateContainer") == old(ncalls("api.Plugin.UpdateContainer")) && ncalls("api.PluginService.UpdateContainer") == old(ncalls("api.PluginService.UpdateContainer")) && p.closed == old(p.closed)
 //@   ensures [once]    old(subscribed(p, Event_UPDATE_CONTAINER)) ==> ncalls("api.Plugin.UpdateContainer") + ncalls("api.PluginService.UpdateContainer") == old(ncalls("api.Plugin.UpdateContainer") + ncalls("api.PluginService.UpdateContainer")) + 1
 //@   ensures [wasm]    old(subscribed(p, Event_UPDATE_CONTAINER)) && p.impl.wasmImpl != nil ==> ncalls("api.Plugin.UpdateContainer") == old(ncalls("api.Plugin.UpdateContainer")) + 1
@@ -806,9 +808,10 @@ package adaptation
 
 //@ func plugin.stopContainer
 //@   props C06 C07
+//@   logs relay.StopContainer
 //@   requires p != nil && p.impl != nil && !held(p.Mutex) && cfgLockFree()
 //@   requires p.impl.wasmImpl == nil ==> p.impl.ttrpcImpl != nil && p.mux != nil && p.rpcc != nil && p.rpcs != nil && p.rpcl != nil
-//@   modifies @writes
+//@   modifies p.closed, lock(p.Mutex), calls("multiplex.Mux.Close"), calls("(*github.com/containerd/ttrpc.Client).Close"), calls("(*github.com/containerd/ttrpc.Server).Close"), calls("net.Listener.Close"), lock(global("adaptation.timeoutCfgLock")), calls("api.Plugin.StopContainer"), calls("api.PluginService.StopContainer")
 //@   ensures [unsub]   !old(subscribed(p, Event_STOP_CONTAINER)) ==> result.0 == nil && result.1 == nil && ncalls("api.Plugin.StopContainer") == old(ncalls("api.Plugin.StopContainer")) && ncalls("api.PluginService.StopContainer") == old(ncalls("api.PluginService.StopContainer")) && p.closed == old(p.closed)
 //@   ensures [once]    old(subscribed(p, Event_STOP_CONTAINER)) ==> ncalls("api.Plugin.StopContainer") + ncalls("api.PluginService.StopContainer") == old(ncalls("api.Plugin.StopContainer") + ncalls("api.PluginService.StopContainer")) + 1
 //@   ensures [wasm]    old(subscribed(p, Event_STOP_CONTAINER)) && p.impl.wasmImpl != nil ==> ncalls("api.Plugin.StopContainer") == old(ncalls("api.Plugin.StopContainer")) + 1
@@ -825,3 +828,337 @@ package adaptation
 //@                       && (err != nil && !isFatalError(err) ==> result.0 == nil && result.1 == err && p.closed == old(p.closed)))
 //@   ensures [same]    p.events == old(p.events) && p.impl == old(p.impl) && p.idx == old(p.idx) && p.base == old(p.base) && !held(p.Mutex) && cfgLockFree()
 
+//@ func plugin.StateChange
+//@   props C06 C07
+//@   logs relay.StateChange
+//@   requires p != nil && p.impl != nil && !held(p.Mutex) && cfgLockFree() && evt != nil
+//@   requires p.impl.wasmImpl == nil ==> p.impl.ttrpcImpl != nil && p.mux != nil && p.rpcc != nil && p.rpcs != nil && p.rpcl != nil
+//@   modifies p.closed, lock(p.Mutex), calls("multiplex.Mux.Close"), calls("(*github.com/containerd/ttrpc.Client).Close"), calls("(*github.com/containerd/ttrpc.Server).Close"), calls("net.Listener.Close"), lock(global("adaptation.timeoutCfgLock")), calls("api.Plugin.StateChange"), calls("api.PluginService.StateChange")
+//@   ensures [unsub]   !old(bit(p.events, evt.Event - 1)) ==> result == nil && ncalls("api.Plugin.StateChange") == old(ncalls("api.Plugin.StateChange")) && ncalls("api.PluginService.StateChange") == old(ncalls("api.PluginService.StateChange")) && p.closed == old(p.closed)
+//@   ensures [once]    old(bit(p.events, evt.Event - 1)) ==> ncalls("api.Plugin.StateChange") + ncalls("api.PluginService.StateChange") == old(ncalls("api.Plugin.StateChange") + ncalls("api.PluginService.StateChange")) + 1
+//@   ensures [wasm]    old(bit(p.events, evt.Event - 1)) && p.impl.wasmImpl != nil ==> ncalls("api.Plugin.StateChange") == old(ncalls("api.Plugin.StateChange")) + 1
+//@                     && callarg("api.Plugin.StateChange", old(ncalls("api.Plugin.StateChange")), 2) == evt && hasdeadline(callarg("api.Plugin.StateChange", old(ncalls("api.Plugin.StateChange")), 1))
+//@                     && (let err = callret("api.Plugin.StateChange", old(ncalls("api.Plugin.StateChange")), 1) in
+//@                          (err == nil ==> result == nil && p.closed == old(p.closed))
+//@                       && (err != nil && isFatalError(err) ==> result == nil && p.closed)
+//@                       && (err != nil && !isFatalError(err) ==> result == err && p.closed == old(p.closed)))
+//@   ensures [ttrpc]    old(bit(p.events, evt.Event - 1)) && p.impl.wasmImpl == nil ==> ncalls("api.PluginService.StateChange") == old(ncalls("api.PluginService.StateChange")) + 1
+//@                     && callarg("api.PluginService.StateChange", old(ncalls("api.PluginService.StateChange")), 2) == evt && hasdeadline(callarg("api.PluginService.StateChange", old(ncalls("api.PluginService.StateChange")), 1))
+//@                     && (let err = callret("api.PluginService.StateChange", old(ncalls("api.PluginService.StateChange")), 1) in
+//@                          (err == nil ==> result == nil && p.closed == old(p.closed))
+//@                       && (err != nil && isFatalError(err) ==> result == nil && p.closed)
+//@                       && (err != nil && !isFatalError(err) ==> result == err && p.closed == old(p.closed)))
+//@   ensures [same]    p.events == old(p.events) && p.impl == old(p.impl) && p.idx == old(p.idx) && p.base == old(p.base) && !held(p.Mutex) && cfgLockFree()
+
+//@ func plugin.updatePodSandbox
+//@   props C06 C07
+//@   logs relay.UpdatePodSandbox
+//@   requires p != nil && p.impl != nil && !held(p.Mutex) && cfgLockFree() && req != nil
+//@   requires p.impl.wasmImpl == nil ==> p.impl.ttrpcImpl != nil && p.mux != nil && p.rpcc != nil && p.rpcs != nil && p.rpcl != nil
+//@   modifies p.closed, lock(p.Mutex), calls("multiplex.Mux.Close"), calls("(*github.com/containerd/ttrpc.Client).Close"), calls("(*github.com/containerd/ttrpc.Server).Close"), calls("net.Listener.Close"), lock(global("adaptation.timeoutCfgLock")), calls("api.Plugin.UpdatePodSandbox"), calls("api.PluginService.UpdatePodSandbox")
+//@   ensures [unsub]   !old(subscribed(p, Event_UPDATE_POD_SANDBOX)) ==> result.1 == nil && ncalls("api.Plugin.UpdatePodSandbox") == old(ncalls("api.Plugin.UpdatePodSandbox")) && ncalls("api.PluginService.UpdatePodSandbox") == old(ncalls("api.PluginService.UpdatePodSandbox")) && p.closed == old(p.closed)
+//@   ensures [once]    old(subscribed(p, Event_UPDATE_POD_SANDBOX)) ==> ncalls("api.Plugin.UpdatePodSandbox") + ncalls("api.PluginService.UpdatePodSandbox") == old(ncalls("api.Plugin.UpdatePodSandbox") + ncalls("api.PluginService.UpdatePodSandbox")) + 1
+//@   ensures [wasm]    old(subscribed(p, Event_UPDATE_POD_SANDBOX)) && p.impl.wasmImpl != nil ==> ncalls("api.Plugin.UpdatePodSandbox") == old(ncalls("api.Plugin.UpdatePodSandbox")) + 1
+//@                     && callarg("api.Plugin.UpdatePodSandbox", old(ncalls("api.Plugin.UpdatePodSandbox")), 2) == req && hasdeadline(callarg("api.Plugin.UpdatePodSandbox", old(ncalls("api.Plugin.UpdatePodSandbox")), 1))
+//@                     && (let err = callret("api.Plugin.UpdatePodSandbox", old(ncalls("api.Plugin.UpdatePodSandbox")), 1) in
+//@                          (err == nil ==> result.1 == nil && p.closed == old(p.closed))
+//@                       && (err != nil && isFatalError(err) ==> result.1 == nil && p.closed)
+//@                       && (err != nil && !isFatalError(err) ==> result.1 == err && p.closed == old(p.closed)))
+//@   ensures [ttrpc]    old(subscribed(p, Event_UPDATE_POD_SANDBOX)) && p.impl.wasmImpl == nil ==> ncalls("api.PluginService.UpdatePodSandbox") == old(ncalls("api.PluginService.UpdatePodSandbox")) + 1
+//@                     && callarg("api.PluginService.UpdatePodSandbox", old(ncalls("api.PluginService.UpdatePodSandbox")), 2) == req && hasdeadline(callarg("api.PluginService.UpdatePodSandbox", old(ncalls("api.PluginService.UpdatePodSandbox")), 1))
+//@                     && (let err = callret("api.PluginService.UpdatePodSandbox", old(ncalls("api.PluginService.UpdatePodSandbox")), 1) in
+//@                          (err == nil ==> result.1 == nil && p.closed == old(p.closed))
+//@                       && (err != nil && isFatalError(err) ==> result.1 == nil && p.closed)
+//@                       && (err != nil && !isFatalError(err) ==> result.1 == err && p.closed == old(p.closed)))
+//@   ensures [same]    p.events == old(p.events) && p.impl == old(p.impl) && p.idx == old(p.idx) && p.base == old(p.base) && !held(p.Mutex) && cfgLockFree()
+
+
+// ---------------------------------------------------------------------------
+// Request dispatch (adaptation.go)
+// ---------------------------------------------------------------------------
+//@ pure wfPlugin(p *plugin) = allocated(p) && allocated(p.impl) && !held(p.Mutex)
+//@     && (p.impl.wasmImpl == nil ==> p.impl.ttrpcImpl != nil && p.mux != nil && p.rpcc != nil && p.rpcs != nil && p.rpcl != nil)
+//@ pure wfPlugins(r *Adaptation) = forall i int :: 0 <= i && i < len(r.plugins) ==> wfPlugin(r.plugins[i])
+
+//@ func Adaptation.removeClosedPlugins
+//@   props C06 C07 C18
+//@   requires r != nil && held(r.Mutex) && wfPlugins(r)
+//@   modifies r.plugins, alllocks("adaptation.plugin:Mutex")
+//@   ensures [pruned] forall i int :: 0 <= i && i < len(r.plugins) ==> !r.plugins[i].closed
+//@   ensures [wf]     wfPlugins(r) && held(r.Mutex) && epoch(r.Mutex) == old(epoch(r.Mutex))
+//@   ensures [nomore] len(r.plugins) <= old(len(r.plugins))
+//@   ensures [fresh]  r.plugins == nil || fresh(r.plugins)
+//@   loop 1 invariant 0 <= idx + 1 && idx + 1 <= len(r.plugins) && r.plugins == old(r.plugins) && held(r.Mutex) && epoch(r.Mutex) == old(epoch(r.Mutex))
+//@   loop 1 invariant forall i int :: 0 <= i && i < len(r.plugins) ==> wfPlugin(r.plugins[i])
+//@   loop 1 invariant forall i int :: 0 <= i && i < len(active) ==> wfPlugin(active[i]) && !active[i].closed
+//@   loop 1 invariant len(active) <= idx + 1 && (active == nil || fresh(active)) && (closed == nil || fresh(closed))
+//@   loop 1 invariant sep(base(active), base(r.plugins)) && sep(base(closed), base(r.plugins)) && sep(base(active), base(closed))
+
+//@ func Adaptation.StateChange
+//@   props C06 C07
+//@   requires r != nil && evt != nil && !held(r.Mutex) && wfPlugins(r) && cfgLockFree()
+//@   modifies lock(r.Mutex), r.plugins, alllocks("adaptation.plugin:Mutex"), allfields("plugin.closed"), lock(global("adaptation.timeoutCfgLock")), calls("relay.StateChange")
+//@   modifies calls("api.Plugin.StateChange"), calls("api.PluginService.StateChange"), calls("multiplex.Mux.Close"), calls("(*github.com/containerd/ttrpc.Client).Close"), calls("(*github.com/containerd/ttrpc.Server).Close"), calls("net.Listener.Close")
+//@   at call plugin.StateChange assert held(r.Mutex)
+//@   ensures [unset]  evt.Event == 0 ==> result != nil && ncalls("relay.StateChange") == old(ncalls("relay.StateChange")) && epoch(r.Mutex) == old(epoch(r.Mutex))
+//@   ensures [lock]   !held(r.Mutex) && (evt.Event != 0 ==> epoch(r.Mutex) == old(epoch(r.Mutex)) + 1)
+//@   ensures [count]  ncalls("relay.StateChange") - old(ncalls("relay.StateChange")) <= old(len(r.plugins)) && ncalls("relay.StateChange") >= old(ncalls("relay.StateChange"))
+//@   ensures [order]  forall i int :: 0 <= i && i < ncalls("relay.StateChange") - old(ncalls("relay.StateChange")) ==>
+//@                      callarg("relay.StateChange", old(ncalls("relay.StateChange")) + i, 0) == old(r.plugins[i]) && callarg("relay.StateChange", old(ncalls("relay.StateChange")) + i, 2) == evt
+//@   ensures [all]    evt.Event != 0 && result == nil ==> ncalls("relay.StateChange") == old(ncalls("relay.StateChange")) + old(len(r.plugins))
+//@   ensures [veto]   evt.Event != 0 && result != nil ==> ncalls("relay.StateChange") > old(ncalls("relay.StateChange")) && callret("relay.StateChange", ncalls("relay.StateChange") - 1, 0) == result
+//@   ensures [passed] forall i int :: 0 <= i && i < ncalls("relay.StateChange") - old(ncalls("relay.StateChange")) - 1 ==> callret("relay.StateChange", old(ncalls("relay.StateChange")) + i, 0) == nil
+//@   ensures [pruned] evt.Event != 0 ==> forall i int :: 0 <= i && i < len(r.plugins) ==> !r.plugins[i].closed
+//@   ensures [wf]     wfPlugins(r) && cfgLockFree()
+//@   loop 1 invariant 0 <= idx + 1 && idx + 1 <= len(r.plugins) && r.plugins == old(r.plugins) && held(r.Mutex) && epoch(r.Mutex) == old(epoch(r.Mutex)) + 1 && cfgLockFree()
+//@   loop 1 invariant forall i int :: 0 <= i && i < len(r.plugins) ==> wfPlugin(r.plugins[i]) && r.plugins[i] == old(r.plugins[i])
+//@   loop 1 invariant ncalls("relay.StateChange") == old(ncalls("relay.StateChange")) + idx + 1
+//@   loop 1 invariant forall i int :: 0 <= i && i <= idx ==> callarg("relay.StateChange", old(ncalls("relay.StateChange")) + i, 0) == r.plugins[i]
+//@                      && callarg("relay.StateChange", old(ncalls("relay.StateChange")) + i, 2) == evt && callret("relay.StateChange", old(ncalls("relay.StateChange")) + i, 0) == nil
+
+// ---- lifecycle event wrappers: set the event kind, then dispatch (generated by gen_dispatch.py) ----
+//@ func Adaptation.RunPodSandbox
+//@   props C06
+//@   requires r != nil && evt != nil && !held(r.Mutex) && wfPlugins(r) && cfgLockFree()
+//@   modifies evt.Event, lock(r.Mutex), r.plugins, alllocks("adaptation.plugin:Mutex"), allfields("plugin.closed"), lock(global("adaptation.timeoutCfgLock")), calls("relay.StateChange"), calls("api.Plugin.StateChange"), calls("api.PluginService.StateChange"), calls("multiplex.Mux.Close"), calls("(*github.com/containerd/ttrpc.Client).Close"), calls("(*github.com/containerd/ttrpc.Server).Close"), calls("net.Listener.Close")
+//@   ensures [kind]   evt.Event == Event_RUN_POD_SANDBOX
+//@   ensures [lock]   !held(r.Mutex) && (true ==> epoch(r.Mutex) == old(epoch(r.Mutex)) + 1)
+//@   ensures [count]  ncalls("relay.StateChange") - old(ncalls("relay.StateChange")) <= old(len(r.plugins)) && ncalls("relay.StateChange") >= old(ncalls("relay.StateChange"))
+//@   ensures [order]  forall i int :: 0 <= i && i < ncalls("relay.StateChange") - old(ncalls("relay.StateChange")) ==> callarg("relay.StateChange", old(ncalls("relay.StateChange")) + i, 0) == old(r.plugins[i]) && callarg("relay.StateChange", old(ncalls("relay.StateChange")) + i, 2) == evt
+//@   ensures [all]    true && result == nil ==> ncalls("relay.StateChange") == old(ncalls("relay.StateChange")) + old(len(r.plugins))
+//@   ensures [pruned] true ==> forall i int :: 0 <= i && i < len(r.plugins) ==> !r.plugins[i].closed
+//@   ensures [wf]     wfPlugins(r) && cfgLockFree()
+//@   ensures [veto]   result != nil ==> ncalls("relay.StateChange") > old(ncalls("relay.StateChange")) && callret("relay.StateChange", ncalls("relay.StateChange") - 1, 0) == result
+
+//@ func Adaptation.PostUpdatePodSandbox
+//@   props C06
+//@   requires r != nil && evt != nil && !held(r.Mutex) && wfPlugins(r) && cfgLockFree()
+//@   modifies evt.Event, lock(r.Mutex), r.plugins, alllocks("adaptation.plugin:Mutex"), allfields("plugin.closed"), lock(global("adaptation.timeoutCfgLock")), calls("relay.StateChange"), calls("api.Plugin.StateChange"), calls("api.PluginService.StateChange"), calls("multiplex.Mux.Close"), calls("(*github.com/containerd/ttrpc.Client).Close"), calls("(*github.com/containerd/ttrpc.Server).Close"), calls("net.Listener.Close")
+//@   ensures [kind]   evt.Event == Event_POST_UPDATE_POD_SANDBOX
+//@   ensures [lock]   !held(r.Mutex) && (true ==> epoch(r.Mutex) == old(epoch(r.Mutex)) + 1)
+//@   ensures [count]  ncalls("relay.StateChange") - old(ncalls("relay.StateChange")) <= old(len(r.plugins)) && ncalls("relay.StateChange") >= old(ncalls("relay.StateChange"))
+//@   ensures [order]  forall i int :: 0 <= i && i < ncalls("relay.StateChange") - old(ncalls("relay.StateChange")) ==> callarg("relay.StateChange", old(ncalls("relay.StateChange")) + i, 0) == old(r.plugins[i]) && callarg("relay.StateChange", old(ncalls("relay.StateChange")) + i, 2) == evt
+//@   ensures [all]    true && result == nil ==> ncalls("relay.StateChange") == old(ncalls("relay.StateChange")) + old(len(r.plugins))
+//@   ensures [pruned] true ==> forall i int :: 0 <= i && i < len(r.plugins) ==> !r.plugins[i].closed
+//@   ensures [wf]     wfPlugins(r) && cfgLockFree()
+//@   ensures [veto]   result != nil ==> ncalls("relay.StateChange") > old(ncalls("relay.StateChange")) && callret("relay.StateChange", ncalls("relay.StateChange") - 1, 0) == result
+
+//@ func Adaptation.StopPodSandbox
+//@   props C06
+//@   requires r != nil && evt != nil && !held(r.Mutex) && wfPlugins(r) && cfgLockFree()
+//@   modifies evt.Event, lock(r.Mutex), r.plugins, alllocks("adaptation.plugin:Mutex"), allfields("plugin.closed"), lock(global("adaptation.timeoutCfgLock")), calls("relay.StateChange"), calls("api.Plugin.StateChange"), calls("api.PluginService.StateChange"), calls("multiplex.Mux.Close"), calls("(*github.com/containerd/ttrpc.Client).Close"), calls("(*github.com/containerd/ttrpc.Server).Close"), calls("net.Listener.Close")
+//@   ensures [kind]   evt.Event == Event_STOP_POD_SANDBOX
+//@   ensures [lock]   !held(r.Mutex) && (true ==> epoch(r.Mutex) == old(epoch(r.Mutex)) + 1)
+//@   ensures [count]  ncalls("relay.StateChange") - old(ncalls("relay.StateChange")) <= old(len(r.plugins)) && ncalls("relay.StateChange") >= old(ncalls("relay.StateChange"))
+//@   ensures [order]  forall i int :: 0 <= i && i < ncalls("relay.StateChange") - old(ncalls("relay.StateChange")) ==> callarg("relay.StateChange", old(ncalls("relay.StateChange")) + i, 0) == old(r.plugins[i]) && callarg("relay.StateChange", old(ncalls("relay.StateChange")) + i, 2) == evt
+//@   ensures [all]    true && result == nil ==> ncalls("relay.StateChange") == old(ncalls("relay.StateChange")) + old(len(r.plugins))
+//@   ensures [pruned] true ==> forall i int :: 0 <= i && i < len(r.plugins) ==> !r.plugins[i].closed
+//@   ensures [wf]     wfPlugins(r) && cfgLockFree()
+//@   ensures [veto]   result != nil ==> ncalls("relay.StateChange") > old(ncalls("relay.StateChange")) && callret("relay.StateChange", ncalls("relay.StateChange") - 1, 0) == result
+
+//@ func Adaptation.RemovePodSandbox
+//@   props C06
+//@   requires r != nil && evt != nil && !held(r.Mutex) && wfPlugins(r) && cfgLockFree()
+//@   modifies evt.Event, lock(r.Mutex), r.plugins, alllocks("adaptation.plugin:Mutex"), allfields("plugin.closed"), lock(global("adaptation.timeoutCfgLock")), calls("relay.StateChange"), calls("api.Plugin.StateChange"), calls("api.PluginService.StateChange"), calls("multiplex.Mux.Close"), calls("(*github.com/containerd/ttrpc.Client).Close"), calls("(*github.com/containerd/ttrpc.Server).Close"), calls("net.Listener.Close")
+//@   ensures [kind]   evt.Event == Event_REMOVE_POD_SANDBOX
+//@   ensures [lock]   !held(r.Mutex) && (true ==> epoch(r.Mutex) == old(epoch(r.Mutex)) + 1)
+//@   ensures [count]  ncalls("relay.StateChange") - old(ncalls("relay.StateChange")) <= old(len(r.plugins)) && ncalls("relay.StateChange") >= old(ncalls("relay.StateChange"))
+//@   ensures [order]  forall i int :: 0 <= i && i < ncalls("relay.StateChange") - old(ncalls("relay.StateChange")) ==> callarg("relay.StateChange", old(ncalls("relay.StateChange")) + i, 0) == old(r.plugins[i]) && callarg("relay.StateChange", old(ncalls("relay.StateChange")) + i, 2) == evt
+//@   ensures [all]    true && result == nil ==> ncalls("relay.StateChange") == old(ncalls("relay.StateChange")) + old(len(r.plugins))
+//@   ensures [pruned] true ==> forall i int :: 0 <= i && i < len(r.plugins) ==> !r.plugins[i].closed
+//@   ensures [wf]     wfPlugins(r) && cfgLockFree()
+//@   ensures [veto]   result != nil ==> ncalls("relay.StateChange") > old(ncalls("relay.StateChange")) && callret("relay.StateChange", ncalls("relay.StateChange") - 1, 0) == result
+
+//@ func Adaptation.PostCreateContainer
+//@   props C06
+//@   requires r != nil && evt != nil && !held(r.Mutex) && wfPlugins(r) && cfgLockFree()
+//@   modifies evt.Event, lock(r.Mutex), r.plugins, alllocks("adaptation.plugin:Mutex"), allfields("plugin.closed"), lock(global("adaptation.timeoutCfgLock")), calls("relay.StateChange"), calls("api.Plugin.StateChange"), calls("api.PluginService.StateChange"), calls("multiplex.Mux.Close"), calls("(*github.com/containerd/ttrpc.Client).Close"), calls("(*github.com/containerd/ttrpc.Server).Close"), calls("net.Listener.Close")
+//@   ensures [kind]   evt.Event == Event_POST_CREATE_CONTAINER
+//@   ensures [lock]   !held(r.Mutex) && (true ==> epoch(r.Mutex) == old(epoch(r.Mutex)) + 1)
+//@   ensures [count]  ncalls("relay.StateChange") - old(ncalls("relay.StateChange")) <= old(len(r.plugins)) && ncalls("relay.StateChange") >= old(ncalls("relay.StateChange"))
+//@   ensures [order]  forall i int :: 0 <= i && i < ncalls("relay.StateChange") - old(ncalls("relay.StateChange")) ==> callarg("relay.StateChange", old(ncalls("relay.StateChange")) + i, 0) == old(r.plugins[i]) && callarg("relay.StateChange", old(ncalls("relay.StateChange")) + i, 2) == evt
+//@   ensures [all]    true && result == nil ==> ncalls("relay.StateChange") == old(ncalls("relay.StateChange")) + old(len(r.plugins))
+//@   ensures [pruned] true ==> forall i int :: 0 <= i && i < len(r.plugins) ==> !r.plugins[i].closed
+//@   ensures [wf]     wfPlugins(r) && cfgLockFree()
+//@   ensures [veto]   result != nil ==> ncalls("relay.StateChange") > old(ncalls("relay.StateChange")) && callret("relay.StateChange", ncalls("relay.StateChange") - 1, 0) == result
+
+//@ func Adaptation.StartContainer
+//@   props C06
+//@   requires r != nil && evt != nil && !held(r.Mutex) && wfPlugins(r) && cfgLockFree()
+//@   modifies evt.Event, lock(r.Mutex), r.plugins, alllocks("adaptation.plugin:Mutex"), allfields("plugin.closed"), lock(global("adaptation.timeoutCfgLock")), calls("relay.StateChange"), calls("api.Plugin.StateChange"), calls("api.PluginService.StateChange"), calls("multiplex.Mux.Close"), calls("(*github.com/containerd/ttrpc.Client).Close"), calls("(*github.com/containerd/ttrpc.Server).Close"), calls("net.Listener.Close")
+//@   ensures [kind]   evt.Event == Event_START_CONTAINER
+//@   ensures [lock]   !held(r.Mutex) && (true ==> epoch(r.Mutex) == old(epoch(r.Mutex)) + 1)
+//@   ensures [count]  ncalls("relay.StateChange") - old(ncalls("relay.StateChange")) <= old(len(r.plugins)) && ncalls("relay.StateChange") >= old(ncalls("relay.StateChange"))
+//@   ensures [order]  forall i int :: 0 <= i && i < ncalls("relay.StateChange") - old(ncalls("relay.StateChange")) ==> callarg("relay.StateChange", old(ncalls("relay.StateChange")) + i, 0) == old(r.plugins[i]) && callarg("relay.StateChange", old(ncalls("relay.StateChange")) + i, 2) == evt
+//@   ensures [all]    true && result == nil ==> ncalls("relay.StateChange") == old(ncalls("relay.StateChange")) + old(len(r.plugins))
+//@   ensures [pruned] true ==> forall i int :: 0 <= i && i < len(r.plugins) ==> !r.plugins[i].closed
+//@   ensures [wf]     wfPlugins(r) && cfgLockFree()
+//@   ensures [veto]   result != nil ==> ncalls("relay.StateChange") > old(ncalls("relay.StateChange")) && callret("relay.StateChange", ncalls("relay.StateChange") - 1, 0) == result
+
+//@ func Adaptation.PostStartContainer
+//@   props C06
+//@   requires r != nil && evt != nil && !held(r.Mutex) && wfPlugins(r) && cfgLockFree()
+//@   modifies evt.Event, lock(r.Mutex), r.plugins, alllocks("adaptation.plugin:Mutex"), allfields("plugin.closed"), lock(global("adaptation.timeoutCfgLock")), calls("relay.StateChange"), calls("api.Plugin.StateChange"), calls("api.PluginService.StateChange"), calls("multiplex.Mux.Close"), calls("(*github.com/containerd/ttrpc.Client).Close"), calls("(*github.com/containerd/ttrpc.Server).Close"), calls("net.Listener.Close")
+//@   ensures [kind]   evt.Event == Event_POST_START_CONTAINER
+//@   ensures [lock]   !held(r.Mutex) && (true ==> epoch(r.Mutex) == old(epoch(r.Mutex)) + 1)
+//@   ensures [count]  ncalls("relay.StateChange") - old(ncalls("relay.StateChange")) <= old(len(r.plugins)) && ncalls("relay.StateChange") >= old(ncalls("relay.StateChange"))
+//@   ensures [order]  forall i int :: 0 <= i && i < ncalls("relay.StateChange") - old(ncalls("relay.StateChange")) ==> callarg("relay.StateChange", old(ncalls("relay.StateChange")) + i, 0) == old(r.plugins[i]) && callarg("relay.StateChange", old(ncalls("relay.StateChange")) + i, 2) == evt
+//@   ensures [all]    true && result == nil ==> ncalls("relay.StateChange") == old(ncalls("relay.StateChange")) + old(len(r.plugins))
+//@   ensures [pruned] true ==> forall i int :: 0 <= i && i < len(r.plugins) ==> !r.plugins[i].closed
+//@   ensures [wf]     wfPlugins(r) && cfgLockFree()
+//@   ensures [veto]   result != nil ==> ncalls("relay.StateChange") > old(ncalls("relay.StateChange")) && callret("relay.StateChange", ncalls("relay.StateChange") - 1, 0) == result
+
+//@ func Adaptation.PostUpdateContainer
+//@   props C06
+//@   requires r != nil && evt != nil && !held(r.Mutex) && wfPlugins(r) && cfgLockFree()
+//@   modifies evt.Event, lock(r.Mutex), r.plugins, alllocks("adaptation.plugin:Mutex"), allfields("plugin.closed"), lock(global("adaptation.timeoutCfgLock")), calls("relay.StateChange"), calls("api.Plugin.StateChange"), calls("api.PluginService.StateChange"), calls("multiplex.Mux.Close"), calls("(*github.com/containerd/ttrpc.Client).Close"), calls("(*github.com/containerd/ttrpc.Server).Close"), calls("net.Listener.Close")
+//@   ensures [kind]   evt.Event == Event_POST_UPDATE_CONTAINER
+//@   ensures [lock]   !held(r.Mutex) && (true ==> epoch(r.Mutex) == old(epoch(r.Mutex)) + 1)
+//@   ensures [count]  ncalls("relay.StateChange") - old(ncalls("relay.StateChange")) <= old(len(r.plugins)) && ncalls("relay.StateChange") >= old(ncalls("relay.StateChange"))
+//@   ensures [order]  forall i int :: 0 <= i && i < ncalls("relay.StateChange") - old(ncalls("relay.StateChange")) ==> callarg("relay.StateChange", old(ncalls("relay.StateChange")) + i, 0) == old(r.plugins[i]) && callarg("relay.StateChange", old(ncalls("relay.StateChange")) + i, 2) == evt
+//@   ensures [all]    true && result == nil ==> ncalls("relay.StateChange") == old(ncalls("relay.StateChange")) + old(len(r.plugins))
+//@   ensures [pruned] true ==> forall i int :: 0 <= i && i < len(r.plugins) ==> !r.plugins[i].closed
+//@   ensures [wf]     wfPlugins(r) && cfgLockFree()
+//@   ensures [veto]   result != nil ==> ncalls("relay.StateChange") > old(ncalls("relay.StateChange")) && callret("relay.StateChange", ncalls("relay.StateChange") - 1, 0) == result
+
+//@ func Adaptation.RemoveContainer
+//@   props C06
+//@   requires r != nil && evt != nil && !held(r.Mutex) && wfPlugins(r) && cfgLockFree()
+//@   modifies evt.Event, lock(r.Mutex), r.plugins, alllocks("adaptation.plugin:Mutex"), allfields("plugin.closed"), lock(global("adaptation.timeoutCfgLock")), calls("relay.StateChange"), calls("api.Plugin.StateChange"), calls("api.PluginService.StateChange"), calls("multiplex.Mux.Close"), calls("(*github.com/containerd/ttrpc.Client).Close"), calls("(*github.com/containerd/ttrpc.Server).Close"), calls("net.Listener.Close")
+//@   ensures [kind]   evt.Event == Event_REMOVE_CONTAINER
+//@   ensures [lock]   !held(r.Mutex) && (true ==> epoch(r.Mutex) == old(epoch(r.Mutex)) + 1)
+//@   ensures [count]  ncalls("relay.StateChange") - old(ncalls("relay.StateChange")) <= old(len(r.plugins)) && ncalls("relay.StateChange") >= old(ncalls("relay.StateChange"))
+//@   ensures [order]  forall i int :: 0 <= i && i < ncalls("relay.StateChange") - old(ncalls("relay.StateChange")) ==> callarg("relay.StateChange", old(ncalls("relay.StateChange")) + i, 0) == old(r.plugins[i]) && callarg("relay.StateChange", old(ncalls("relay.StateChange")) + i, 2) == evt
+//@   ensures [all]    true && result == nil ==> ncalls("relay.StateChange") == old(ncalls("relay.StateChange")) + old(len(r.plugins))
+//@   ensures [pruned] true ==> forall i int :: 0 <= i && i < len(r.plugins) ==> !r.plugins[i].closed
+//@   ensures [wf]     wfPlugins(r) && cfgLockFree()
+//@   ensures [veto]   result != nil ==> ncalls("relay.StateChange") > old(ncalls("relay.StateChange")) && callret("relay.StateChange", ncalls("relay.StateChange") - 1, 0) == result
+
+//@ func Adaptation.UpdatePodSandbox
+//@   props C06 C07
+//@   requires r != nil && req != nil && !held(r.Mutex) && wfPlugins(r) && cfgLockFree()
+//@   modifies lock(r.Mutex), r.plugins, alllocks("adaptation.plugin:Mutex"), allfields("plugin.closed"), lock(global("adaptation.timeoutCfgLock")), calls("relay.UpdatePodSandbox"), calls("api.Plugin.UpdatePodSandbox"), calls("api.PluginService.UpdatePodSandbox"), calls("multiplex.Mux.Close"), calls("(*github.com/containerd/ttrpc.Client).Close"), calls("(*github.com/containerd/ttrpc.Server).Close"), calls("net.Listener.Close")
+//@   at call plugin.updatePodSandbox assert held(r.Mutex)
+//@   ensures [lock]   !held(r.Mutex) && (true ==> epoch(r.Mutex) == old(epoch(r.Mutex)) + 1)
+//@   ensures [count]  ncalls("relay.UpdatePodSandbox") - old(ncalls("relay.UpdatePodSandbox")) <= old(len(r.plugins)) && ncalls("relay.UpdatePodSandbox") >= old(ncalls("relay.UpdatePodSandbox"))
+//@   ensures [order]  forall i int :: 0 <= i && i < ncalls("relay.UpdatePodSandbox") - old(ncalls("relay.UpdatePodSandbox")) ==> callarg("relay.UpdatePodSandbox", old(ncalls("relay.UpdatePodSandbox")) + i, 0) == old(r.plugins[i]) && callarg("relay.UpdatePodSandbox", old(ncalls("relay.UpdatePodSandbox")) + i, 2) == req
+//@   ensures [all]    true && result.1 == nil ==> ncalls("relay.UpdatePodSandbox") == old(ncalls("relay.UpdatePodSandbox")) + old(len(r.plugins))
+//@   ensures [pruned] true ==> forall i int :: 0 <= i && i < len(r.plugins) ==> !r.plugins[i].closed
+//@   ensures [wf]     wfPlugins(r) && cfgLockFree()
+//@   ensures [veto]   result.1 != nil ==> result.0 == nil && ncalls("relay.UpdatePodSandbox") > old(ncalls("relay.UpdatePodSandbox")) && callret("relay.UpdatePodSandbox", ncalls("relay.UpdatePodSandbox") - 1, 1) == result.1
+//@   ensures [ok]     result.1 == nil ==> result.0 != nil
+//@   loop 1 invariant 0 <= idx + 1 && idx + 1 <= len(r.plugins) && r.plugins == old(r.plugins) && held(r.Mutex) && epoch(r.Mutex) == old(epoch(r.Mutex)) + 1 && cfgLockFree()
+//@   loop 1 invariant forall i int :: 0 <= i && i < len(r.plugins) ==> wfPlugin(r.plugins[i]) && r.plugins[i] == old(r.plugins[i])
+//@   loop 1 invariant ncalls("relay.UpdatePodSandbox") == old(ncalls("relay.UpdatePodSandbox")) + idx + 1
+//@   loop 1 invariant forall i int :: 0 <= i && i <= idx ==> callarg("relay.UpdatePodSandbox", old(ncalls("relay.UpdatePodSandbox")) + i, 0) == r.plugins[i] && callarg("relay.UpdatePodSandbox", old(ncalls("relay.UpdatePodSandbox")) + i, 2) == req && callret("relay.UpdatePodSandbox", old(ncalls("relay.UpdatePodSandbox")) + i, 1) == nil
+
+// result.apply and the result constructors: for the dispatch loops only their frame matters (a
+// statically computed write set); their functional contracts are those of result.go above.
+//@ func result.apply
+//@   props C01 C06 C07
+//@   logs result.apply
+//@   trusted
+//@   requires r != nil
+//@   modifies @writes
+//@ func collectCreateContainerResult
+//@   props C04 C06 C07
+//@   requires request != nil && request.Container != nil
+//@   modifies @writes
+//@   ensures result != nil && fresh(result) && result.request.create == request && result.request.update == nil
+//@ func collectUpdateContainerResult
+//@   props C04 C06 C07
+//@   requires request == nil || request.Container != nil
+//@   modifies @writes
+//@   ensures result != nil && fresh(result) && result.request.update == request && result.request.create == nil
+//@ func collectStopContainerResult
+//@   props C04 C06 C07
+//@   requires true
+//@   modifies @writes
+//@   ensures result != nil && fresh(result) && result.request.update == nil && result.request.create == nil
+
+//@ func Adaptation.CreateContainer
+//@   props C01 C06 C07
+//@   requires r != nil && req != nil && !held(r.Mutex) && wfPlugins(r) && cfgLockFree() && req.Container != nil
+//@   modifies @writes
+//@   at call plugin.createContainer assert held(r.Mutex)
+//@   at call result.apply assert held(r.Mutex)
+//@   ensures [lock]   !held(r.Mutex) && (true ==> epoch(r.Mutex) == old(epoch(r.Mutex)) + 1)
+//@   ensures [count]  ncalls("relay.CreateContainer") - old(ncalls("relay.CreateContainer")) <= old(len(r.plugins)) && ncalls("relay.CreateContainer") >= old(ncalls("relay.CreateContainer"))
+//@   ensures [order]  forall i int :: 0 <= i && i < ncalls("relay.CreateContainer") - old(ncalls("relay.CreateContainer")) ==> callarg("relay.CreateContainer", old(ncalls("relay.CreateContainer")) + i, 0) == old(r.plugins[i]) && callarg("relay.CreateContainer", old(ncalls("relay.CreateContainer")) + i, 2) == req
+//@   ensures [all]    true && result.1 == nil ==> ncalls("relay.CreateContainer") == old(ncalls("relay.CreateContainer")) + old(len(r.plugins))
+//@   ensures [pruned] true ==> forall i int :: 0 <= i && i < len(r.plugins) ==> !r.plugins[i].closed
+//@   ensures [wf]     wfPlugins(r) && cfgLockFree()
+//@   ensures [veto]   result.1 != nil ==> result.0 == nil
+//@   ensures [ok]     result.1 == nil ==> result.0 != nil
+//@   ensures [apply]  ncalls("result.apply") - old(ncalls("result.apply")) <= ncalls("relay.CreateContainer") - old(ncalls("relay.CreateContainer")) && ncalls("result.apply") >= old(ncalls("result.apply"))
+//@   ensures [applied] forall i int :: 0 <= i && i < ncalls("result.apply") - old(ncalls("result.apply")) ==> ifaceval(callarg("result.apply", old(ncalls("result.apply")) + i, 1), "*api.CreateContainerResponse") == callret("relay.CreateContainer", old(ncalls("relay.CreateContainer")) + i, 0)
+//@                      && callarg("result.apply", old(ncalls("result.apply")) + i, 0) == callarg("result.apply", old(ncalls("result.apply")), 0)
+//@   loop 1 invariant 0 <= idx + 1 && idx + 1 <= len(r.plugins) && r.plugins == old(r.plugins) && held(r.Mutex) && epoch(r.Mutex) == old(epoch(r.Mutex)) + 1 && cfgLockFree() && allocated(result) && result.request.create == req
+//@   loop 1 invariant forall i int :: 0 <= i && i < len(r.plugins) ==> wfPlugin(r.plugins[i]) && r.plugins[i] == old(r.plugins[i])
+//@   loop 1 invariant ncalls("relay.CreateContainer") == old(ncalls("relay.CreateContainer")) + idx + 1 && ncalls("result.apply") == old(ncalls("result.apply")) + idx + 1
+//@   loop 1 invariant forall i int :: 0 <= i && i <= idx ==> callarg("relay.CreateContainer", old(ncalls("relay.CreateContainer")) + i, 0) == r.plugins[i] && callarg("relay.CreateContainer", old(ncalls("relay.CreateContainer")) + i, 2) == req && callret("relay.CreateContainer", old(ncalls("relay.CreateContainer")) + i, 1) == nil
+//@   loop 1 invariant forall i int :: 0 <= i && i <= idx ==> ifaceval(callarg("result.apply", old(ncalls("result.apply")) + i, 1), "*api.CreateContainerResponse") == callret("relay.CreateContainer", old(ncalls("relay.CreateContainer")) + i, 0) && callarg("result.apply", old(ncalls("result.apply")) + i, 0) == result
+
+//@ func Adaptation.UpdateContainer
+//@   props C01 C06 C07
+//@   requires r != nil && req != nil && !held(r.Mutex) && wfPlugins(r) && cfgLockFree() && req.Container != nil
+//@   modifies @writes
+//@   at call plugin.updateContainer assert held(r.Mutex)
+//@   at call result.apply assert held(r.Mutex)
+//@   ensures [lock]   !held(r.Mutex) && (true ==> epoch(r.Mutex) == old(epoch(r.Mutex)) + 1)
+//@   ensures [count]  ncalls("relay.UpdateContainer") - old(ncalls("relay.UpdateContainer")) <= old(len(r.plugins)) && ncalls("relay.UpdateContainer") >= old(ncalls("relay.UpdateContainer"))
+//@   ensures [order]  forall i int :: 0 <= i && i < ncalls("relay.UpdateContainer") - old(ncalls("relay.UpdateContainer")) ==> callarg("relay.UpdateContainer", old(ncalls("relay.UpdateContainer")) + i, 0) == old(r.plugins[i]) && callarg("relay.UpdateContainer", old(ncalls("relay.UpdateContainer")) + i, 2) == req
+//@   ensures [all]    true && result.1 == nil ==> ncalls("relay.UpdateContainer") == old(ncalls("relay.UpdateContainer")) + old(len(r.plugins))
+//@   ensures [pruned] true ==> forall i int :: 0 <= i && i < len(r.plugins) ==> !r.plugins[i].closed
+//@   ensures [wf]     wfPlugins(r) && cfgLockFree()
+//@   ensures [veto]   result.1 != nil ==> result.0 == nil
+//@   ensures [ok]     result.1 == nil ==> result.0 != nil
+//@   ensures [apply]  ncalls("result.apply") - old(ncalls("result.apply")) <= ncalls("relay.UpdateContainer") - old(ncalls("relay.UpdateContainer")) && ncalls("result.apply") >= old(ncalls("result.apply"))
+//@   ensures [applied] forall i int :: 0 <= i && i < ncalls("result.apply") - old(ncalls("result.apply")) ==> ifaceval(callarg("result.apply", old(ncalls("result.apply")) + i, 1), "*api.UpdateContainerResponse") == callret("relay.UpdateContainer", old(ncalls("relay.UpdateContainer")) + i, 0)
+//@                      && callarg("result.apply", old(ncalls("result.apply")) + i, 0) == callarg("result.apply", old(ncalls("result.apply")), 0)
+//@   loop 1 invariant 0 <= idx + 1 && idx + 1 <= len(r.plugins) && r.plugins == old(r.plugins) && held(r.Mutex) && epoch(r.Mutex) == old(epoch(r.Mutex)) + 1 && cfgLockFree() && allocated(result) && result.request.update == req && req.Container != nil
+//@   loop 1 invariant forall i int :: 0 <= i && i < len(r.plugins) ==> wfPlugin(r.plugins[i]) && r.plugins[i] == old(r.plugins[i])
+//@   loop 1 invariant ncalls("relay.UpdateContainer") == old(ncalls("relay.UpdateContainer")) + idx + 1 && ncalls("result.apply") == old(ncalls("result.apply")) + idx + 1
+//@   loop 1 invariant forall i int :: 0 <= i && i <= idx ==> callarg("relay.UpdateContainer", old(ncalls("relay.UpdateContainer")) + i, 0) == r.plugins[i] && callarg("relay.UpdateContainer", old(ncalls("relay.UpdateContainer")) + i, 2) == req && callret("relay.UpdateContainer", old(ncalls("relay.UpdateContainer")) + i, 1) == nil
+//@   loop 1 invariant forall i int :: 0 <= i && i <= idx ==> ifaceval(callarg("result.apply", old(ncalls("result.apply")) + i, 1), "*api.UpdateContainerResponse") == callret("relay.UpdateContainer", old(ncalls("relay.UpdateContainer")) + i, 0) && callarg("result.apply", old(ncalls("result.apply")) + i, 0) == result
+
+//@ func Adaptation.StopContainer
+//@   props C01 C06 C07
+//@   requires r != nil && req != nil && !held(r.Mutex) && wfPlugins(r) && cfgLockFree()
+//@   modifies @writes
+//@   at call plugin.stopContainer assert held(r.Mutex)
+//@   at call result.apply assert held(r.Mutex)
+//@   ensures [lock]   !held(r.Mutex) && (true ==> epoch(r.Mutex) == old(epoch(r.Mutex)) + 1)
+//@   ensures [count]  ncalls("relay.StopContainer") - old(ncalls("relay.StopContainer")) <= old(len(r.plugins)) && ncalls("relay.StopContainer") >= old(ncalls("relay.StopContainer"))
+//@   ensures [order]  forall i int :: 0 <= i && i < ncalls("relay.StopContainer") - old(ncalls("relay.StopContainer")) ==> callarg("relay.StopContainer", old(ncalls("relay.StopContainer")) + i, 0) == old(r.plugins[i]) && callarg("relay.StopContainer", old(ncalls("relay.StopContainer")) + i, 2) == req
+//@   ensures [all]    true && result.1 == nil ==> ncalls("relay.StopContainer") == old(ncalls("relay.StopContainer")) + old(len(r.plugins))
+//@   ensures [pruned] true ==> forall i int :: 0 <= i && i < len(r.plugins) ==> !r.plugins[i].closed
+//@   ensures [wf]     wfPlugins(r) && cfgLockFree()
+//@   ensures [veto]   result.1 != nil ==> result.0 == nil
+//@   ensures [ok]     result.1 == nil ==> result.0 != nil
+//@   ensures [apply]  ncalls("result.apply") - old(ncalls("result.apply")) <= ncalls("relay.StopContainer") - old(ncalls("relay.StopContainer")) && ncalls("result.apply") >= old(ncalls("result.apply"))
+//@   ensures [applied] forall i int :: 0 <= i && i < ncalls("result.apply") - old(ncalls("result.apply")) ==> ifaceval(callarg("result.apply", old(ncalls("result.apply")) + i, 1), "*api.StopContainerResponse") == callret("relay.StopContainer", old(ncalls("relay.StopContainer")) + i, 0)
+//@                      && callarg("result.apply", old(ncalls("result.apply")) + i, 0) == callarg("result.apply", old(ncalls("result.apply")), 0)
+//@   loop 1 invariant 0 <= idx + 1 && idx + 1 <= len(r.plugins) && r.plugins == old(r.plugins) && held(r.Mutex) && epoch(r.Mutex) == old(epoch(r.Mutex)) + 1 && cfgLockFree() && allocated(result)
+//@   loop 1 invariant forall i int :: 0 <= i && i < len(r.plugins) ==> wfPlugin(r.plugins[i]) && r.plugins[i] == old(r.plugins[i])
+//@   loop 1 invariant ncalls("relay.StopContainer") == old(ncalls("relay.StopContainer")) + idx + 1 && ncalls("result.apply") == old(ncalls("result.apply")) + idx + 1
+//@   loop 1 invariant forall i int :: 0 <= i && i <= idx ==> callarg("relay.StopContainer", old(ncalls("relay.StopContainer")) + i, 0) == r.plugins[i] && callarg("relay.StopContainer", old(ncalls("relay.StopContainer")) + i, 2) == req && callret("relay.StopContainer", old(ncalls("relay.StopContainer")) + i, 1) == nil
+//@   loop 1 invariant forall i int :: 0 <= i && i <= idx ==> ifaceval(callarg("result.apply", old(ncalls("result.apply")) + i, 1), "*api.StopContainerResponse") == callret("relay.StopContainer", old(ncalls("relay.StopContainer")) + i, 0) && callarg("result.apply", old(ncalls("result.apply")) + i, 0) == result
+
+//@ func Adaptation.updateContainers
+//@   props C19
+//@   requires r != nil && !held(r.Mutex) && r.updateFn != nil
+//@   modifies lock(r.Mutex), calls("func:adaptation.Adaptation.updateFn")
+//@   ensures [once]   ncalls("func:adaptation.Adaptation.updateFn") == old(ncalls("func:adaptation.Adaptation.updateFn")) + 1
+//@   ensures [args]   callarg("func:adaptation.Adaptation.updateFn", old(ncalls("func:adaptation.Adaptation.updateFn")), 2) == req
+//@   ensures [result] result.0 == callret("func:adaptation.Adaptation.updateFn", old(ncalls("func:adaptation.Adaptation.updateFn")), 0) && result.1 == callret("func:adaptation.Adaptation.updateFn", old(ncalls("func:adaptation.Adaptation.updateFn")), 1)
+//@   ensures [lock]   !held(r.Mutex) && epoch(r.Mutex) == old(epoch(r.Mutex)) + 1
+
+//@ func plugin.UpdateContainers
+//@   props C19
+//@   requires p != nil && req != nil && p.r != nil && !held(p.r.Mutex) && p.r.updateFn != nil
+//@   modifies lock(p.r.Mutex), calls("func:adaptation.Adaptation.updateFn")
+//@   ensures [once]   ncalls("func:adaptation.Adaptation.updateFn") == old(ncalls("func:adaptation.Adaptation.updateFn")) + 1
+//@   ensures [args]   callarg("func:adaptation.Adaptation.updateFn", old(ncalls("func:adaptation.Adaptation.updateFn")), 2) == req.Update
+//@   ensures [result] result.0 != nil && fresh(result.0) && result.0.Failed == callret("func:adaptation.Adaptation.updateFn", old(ncalls("func:adaptation.Adaptation.updateFn")), 0) && result.1 == callret("func:adaptation.Adaptation.updateFn", old(ncalls("func:adaptation.Adaptation.updateFn")), 1)
+//@   ensures [lock]   !held(p.r.Mutex) && epoch(p.r.Mutex) == old(epoch(p.r.Mutex)) + 1
